@@ -227,6 +227,12 @@ func buildC05Scenarios() []*c05Scenario {
 					must(obscollator.New(n.Pool).InsertChainCollator(ctx, obscollator.InsertChainCollatorParams{ActivationBlockNumber: 0, Collator: shdb.EncodeAddress(uni.Addrs[4])}))
 				}
 			}
+			if state != "empty" && (fl == "gnosis" || fl == "service") {
+				// keyper sets of degenerate shape, as the chain may announce them (the keyper stores every set
+				// it sees): index 0 = members but threshold 0, index 1 = no members at all
+				must(obskeyper.New(n.Pool).InsertKeyperSet(ctx, obskeyper.InsertKeyperSetParams{KeyperConfigIndex: 0, ActivationBlockNumber: 0, Keypers: addrStrings(c05Members(member)), Threshold: 0}))
+				must(obskeyper.New(n.Pool).InsertKeyperSet(ctx, obskeyper.InsertKeyperSetParams{KeyperConfigIndex: 1, ActivationBlockNumber: 50, Keypers: []string{}, Threshold: 0}))
+			}
 			if state == "member+keys" {
 				q := corekeyper.New(n.Pool)
 				must(q.InsertDecryptionKeysMsg(ctx, c05KeysMsg("core", fix, ids[:1], nil)))
@@ -248,6 +254,14 @@ func buildC05Scenarios() []*c05Scenario {
 				sc.Bases[kprtopics.DecryptionKeys] = []p2pmsg.Message{c05KeysMsg(fl, fix, ids, []int{1, 2}), c05KeysMsg(fl, fix, ids[:1], []int{0, 1})}
 				if fl == "service" {
 					sc.Bases[kprtopics.DecryptionKeys] = append(sc.Bases[kprtopics.DecryptionKeys], c05KeysMsg(fl, fix, ids, nil))
+				}
+				if fl == "gnosis" || fl == "service" {
+					// messages for the degenerate keyper sets 0 and 1: nobody has to sign
+					for _, deg := range []uint64{0, 1} {
+						dm := c05KeysMsg(fl, fix, ids[:1], nil)
+						dm.Eon = deg
+						sc.Bases[kprtopics.DecryptionKeys] = append(sc.Bases[kprtopics.DecryptionKeys], dm)
+					}
 				}
 				epk, err := p2pmsg.NewSignedEonPublicKey(simInstanceID, fix.Real.EonPublicKey().Marshal(), 100, c05CfgIdx, 20, uni.Keys[1])
 				must(err)
@@ -273,6 +287,11 @@ func buildC05Scenarios() []*c05Scenario {
 	for _, state := range []string{"empty", "synced"} {
 		sc := &c05Scenario{Name: "accessnode/" + state, Fl: "accessnode", State: state, Topics: []string{kprtopics.DecryptionKeys}, Bases: map[string][]p2pmsg.Message{}}
 		sc.Bases[kprtopics.DecryptionKeys] = []p2pmsg.Message{c05KeysMsg("accessnode", fix, c05IDs("accessnode"), []int{1, 2})}
+		for _, deg := range []uint64{0, 1} {
+			dm := c05KeysMsg("accessnode", fix, c05IDs("accessnode")[:1], nil)
+			dm.Eon = deg
+			sc.Bases[kprtopics.DecryptionKeys] = append(sc.Bases[kprtopics.DecryptionKeys], dm)
+		}
 		c05Scenarios = append(c05Scenarios, sc)
 	}
 	return c05Scenarios
@@ -287,6 +306,11 @@ func (sc *c05Scenario) instantiate() *c05Target {
 			fix := getEonFixture(c05N, c05T)
 			an.Storage.AddEonKey(c05CfgIdx, fix.Real.EonPublicKey())
 			an.Storage.AddKeyperSet(c05CfgIdx, &obskeyper.KeyperSet{KeyperConfigIndex: c05CfgIdx, Keypers: addrStrings(c05Members(true)), Threshold: c05T})
+			// degenerate keyper sets (threshold 0 with members; no members), with an eon key each
+			an.Storage.AddEonKey(0, fix.Real.EonPublicKey())
+			an.Storage.AddKeyperSet(0, &obskeyper.KeyperSet{KeyperConfigIndex: 0, Keypers: addrStrings(c05Members(true)), Threshold: 0})
+			an.Storage.AddEonKey(1, fix.Real.EonPublicKey())
+			an.Storage.AddKeyperSet(1, &obskeyper.KeyperSet{KeyperConfigIndex: 1, Keypers: []string{}, Threshold: 0})
 		}
 		t.M = an.Msging.P2PMessaging
 		return t
@@ -679,7 +703,7 @@ func c05Run(tg *c05Target, topic string, data []byte) (sig, detail string, accep
 
 func TestC05_StructuredMutants(t *testing.T) {
 	rec := recorder("C05")
-	rec.AddRule("per node flavour (core, Gnosis, Shutter service, Primev, snapshot keyper, Gnosis access node) x database state (empty, member with successful DKG n=3 t=2, member with keys/shares/signatures present, non-member; access node empty/synced) x subscribed topic: a valid envelope of the topic's message type (with the flavour's extra) is mutated by a generic structure-aware protobuf mutator (every scalar replaced by boundary values 0,1,64..66,2^31,2^32,2^63,2^64-1; every list cleared/shortened/lengthened/swapped independently of its sibling list; every bytes/string field emptied/truncated/extended/flipped/randomised/resized to 31..96; sub-messages cleared/emptied/mutated recursively; oneof swapped), plus envelope mutations (version, missing/unknown/swapped Any type, trace) and raw truncation / bit flips / random bytes. The combined topic validator runs on the bytes; handlers run only for accepted inputs in the same state (libp2p's contract). Oracle: no panic, returns a verdict / (msgs, err), allocation during the call <= 8 MiB + 2 KiB*len(input); 60 s watchdog = inconclusive. non-trivial = input decodes to a message of the topic's type and reaches the handler-specific validator; distinct by (scenario, input bytes)")
+	rec.AddRule("per node flavour (core, Gnosis, Shutter service, Primev, snapshot keyper, Gnosis access node) x database state (empty, member with successful DKG n=3 t=2, member with keys/shares/signatures present, non-member; access node empty/synced; Gnosis, service and access node also know two degenerate keyper sets - threshold 0 with members, no members at all - and get base messages for them) x subscribed topic: a valid envelope of the topic's message type (with the flavour's extra) is mutated by a generic structure-aware protobuf mutator (every scalar replaced by boundary values 0,1,64..66,2^31,2^32,2^63,2^64-1; every list cleared/shortened/lengthened/swapped independently of its sibling list; every bytes/string field emptied/truncated/extended/flipped/randomised/resized to 31..96; sub-messages cleared/emptied/mutated recursively; oneof swapped), plus envelope mutations (version, missing/unknown/swapped Any type, trace) and raw truncation / bit flips / random bytes. The combined topic validator runs on the bytes; handlers run only for accepted inputs in the same state (libp2p's contract). Oracle: no panic, returns a verdict / (msgs, err), allocation during the call <= 8 MiB + 2 KiB*len(input); 60 s watchdog = inconclusive. non-trivial = input decodes to a message of the topic's type and reaches the handler-specific validator; distinct by (scenario, input bytes)")
 	rec.Assume("pgfake; panics inside goroutines spawned by handlers would not be observable (none are spawned today); libp2p delivers only validator-accepted messages to handlers")
 	scs := buildC05Scenarios()
 	for si, sc := range scs {
